@@ -62,7 +62,9 @@ ShapeChecks(e) ==
     \cup NameIf(e.bdec = "ok" /\ e.idec = "ok" => e.isame, "RoundTrip/item")
     \* a value the JSON decoder delivers exists in the binary form
     \cup NameIf(e.jdec = "ok" => e.jbin \in {"ok", "panic"}, "JsonBinaryAgree")
-    \cup NameIf(e.benc = "ok" => (e.legal <=> e.bdec = "ok"), "drift:Legal")
+    \* a value inside the documented limits of the protocol (WireShapes!Legal) that the encoder writes is a value: it is decoded
+    \cup NameIf(e.legal /\ e.benc = "ok" => e.bdec = "ok", "RoundTrip/value-inside-the-limits-refused")
+    \cup NameIf(e.benc = "ok" /\ e.bdec = "ok" => e.legal, "drift:AcceptsOutsideTheLimits")
     \cup NameIf(e.bdec = "ok" /\ e.idec # "na" => e.idec = "ok", "drift:ItemFormRefuses")
 
 Unbounded(e) == e.out \in {"hang", "memory", "crash"} \/ (e.inlen < 1024 /\ e.allocmb > 256)
